@@ -263,10 +263,14 @@ type HCache struct {
 	Writes [][]byte
 	FailW  int // fail the k-th write (1-based)
 	FailR  bool
+	Seams  bool // park at a scheduler seam before every write
 	nw     int
 }
 
 func (c *HCache) Write(b []byte) error {
+	if c.Seams {
+		sched.Seam("cache.write")
+	}
 	c.mu.Lock()
 	defer c.mu.Unlock()
 	c.nw++
